@@ -3,7 +3,9 @@ package props
 import (
 	"fmt"
 	"math/rand/v2"
+	"regexp"
 	"sort"
+	"strconv"
 	"strings"
 	"time"
 
@@ -14,6 +16,8 @@ import (
 type c24 struct{ base }
 
 func init() { mon.Register(&c24{}) }
+
+var c24BigU = regexp.MustCompile(`\\U([0-9a-fA-F]{1,8})`)
 
 func (*c24) ID() string { return "C24" }
 func (*c24) Rule() string {
@@ -29,15 +33,15 @@ func (*c24) Assumptions() []string {
 
 // c24Carves maps a known finding to the tag conjunctions it carves out.
 var c24Carves = map[string][][]string{
-	"C24-printf-options":            {{"printf:--"}, {"printf:-v"}},
-	"C24-percent-with-flags":        {{"percent-with-flag-or-width"}},
-	"C24-flags-follow-go-fmt":       {{"sign-flag-on-unsigned"}, {"sign-flag-on-string"}, {"zero-flag-on-string"}, {"width-on-c-or-b"}, {"multiple-flags"}},
-	"C24-backslash-before-percent":  {{"escape:\\"}},
-	"C24-width-counts-characters":   {{"width-with-multibyte-arg"}},
-	"C24-numeric-argument-handling": {{"illtyped-numeric-arg"}, {"missing-numeric-arg"}},
+	"C24-printf-options":             {{"printf:--"}, {"printf:-v"}},
+	"C24-percent-with-flags":         {{"percent-with-flag-or-width"}},
+	"C24-flags-follow-go-fmt":        {{"sign-flag-on-unsigned"}, {"sign-flag-on-string"}, {"zero-flag-on-string"}, {"width-on-c-or-b"}, {"multiple-flags"}},
+	"C24-backslash-before-percent":   {{"escape:\\"}},
+	"C24-width-counts-characters":    {{"width-with-multibyte-arg"}},
+	"C24-numeric-argument-handling":  {{"illtyped-numeric-arg"}, {"missing-numeric-arg"}},
 	"C24-octal-escape-takes-8-and-9": {{"escape:\\18"}},
-	"C24-echo-and-b-escapes": {{"echo", "escape:\\c"}, {"echo", "escape:\\1"}, {"echo", "escape:\\101"}, {"echo", "escape:\\0101"}, {"echo", "escape:\\777"}, {"echo", "escape:\\18"}, {"echo", "escape:\\\""}, {"echo", "escape:\\?"}, {"echo", "escape:\\'"}, {"b-arg-with-special-escape"}},
-	"C24-echo-option-clusters": {{"echo-opts:-ne"}, {"echo-opts:-en"}, {"echo-opts:-nE"}, {"echo-opts:-eE"}, {"echo-opts:-Ee"}, {"echo-opts:-nx"}},
+	"C24-echo-and-b-escapes":         {{"echo", "escape:\\c"}, {"echo", "escape:\\1"}, {"echo", "escape:\\101"}, {"echo", "escape:\\0101"}, {"echo", "escape:\\777"}, {"echo", "escape:\\18"}, {"echo", "escape:\\\""}, {"echo", "escape:\\?"}, {"echo", "escape:\\'"}, {"b-arg-with-special-escape"}},
+	"C24-echo-option-clusters":       {{"echo-opts:-ne"}, {"echo-opts:-en"}, {"echo-opts:-nE"}, {"echo-opts:-eE"}, {"echo-opts:-Ee"}, {"echo-opts:-nx"}},
 }
 
 func (p *c24) carved(tags map[string]bool) bool {
@@ -243,7 +247,16 @@ func (p *c24) Gen(i int, r *rand.Rand) any {
 
 func (p *c24) Run(payload any) mon.Result {
 	b := payload.(*SnipBatch)
-	res := p.diffSnips(b, nil, nil)
+	res := p.diffSnips(b, func(s Snip, bash, interp snipFrame) (string, string) {
+		// \U with a value beyond U+10FFFF is no character: bash writes the obsolete
+		// five- and six-byte forms, which no UTF-8 consumer accepts
+		for _, m := range c24BigU.FindAllStringSubmatch(s.Src, -1) {
+			if v, err := strconv.ParseUint(m[1], 16, 64); err == nil && v > 0x10FFFF {
+				return mon.OutOfDomain, "code-point-beyond-U+10FFFF"
+			}
+		}
+		return "", ""
+	}, nil)
 	if res.Verdict == "" || res.Verdict == mon.Held {
 		res.Hash = mon.HashOf(b)
 		res.Nontriv = res.Evals > 0
